@@ -121,6 +121,15 @@ use super::*;
 //@item-pub compact | const | U32_OUT_OF_RANGE
 //@item-pub compact | const | U64_OUT_OF_RANGE
 //@item-pub compact | const | U128_OUT_OF_RANGE
+impl vstd::std_specs::convert::FromSpecImpl<Compact<u32>> for u32 {
+    open spec fn obeys_from_spec() -> bool { true }
+    open spec fn from_spec(x: Compact<u32>) -> u32 { x.0 }
+}
+impl From<Compact<u32>> for u32 {
+    //@fn compact.from.u32 :: compact | impl From<Compact<u32>>for u32 | from
+    //@ ret r
+    //@+ ensures r == x.0,
+}
 } // mod compact_types
 pub use compact_types::*;
 
